@@ -18,7 +18,7 @@ def run(ctx):
     ctx.cov["bounds"] = {"segments": "1..%d" % (3 if q else 4), "fragments_per_segment": "1..%d" % (2 if q else 3), "tracks": "1..2",
                          "delimiters": ["none", "styp", "sidx", "styp+sidx", "mfra(+ISM flag)", "mfra without flag", "start-on-moof"],
                          "emsg": ["none", "segment start", "second fragment"] + ([] if q else ["all"]),
-                         "segment_level_sidx": "0..%d" % (1 if q else 2), "UpdateSidx": "existing/absent sidx x nonZeroEPT {false,true}",
+                         "segment_level_sidx": "0..2", "UpdateSidx": "existing/absent sidx x nonZeroEPT {false,true}",
                          "add-sidx tool": "%d runs of the built binary: [-startSegOnMoof] x [-nzEPT] x {clean trafs, trafs with left-over saiz/saio/senc and -removeEnc}" % st["extra"]["tool_runs"]}
     ctx.cov["rule"] = ("one behaviour per consistent fragmented file layout enumerated by FileAsm.tla; materialised with real sizes, decoded "
                        "(reader and SR), partition / re-encoding / index compared; non-trivial = decoded by the real decoder")
